@@ -262,7 +262,15 @@ class Builder:
                 if len(cfound) == 1:
                     self._auto_done.add((rel, extra))
                     self.report.setdefault("auto_extracted_callees", []).append("%s::%s (new constant, copied)" % (rel, extra[6:]))
-                    self.emit_plain_item(rel, src, m, cfound[0])
+                    # Verus asks for the lifetime that rustc elides in the type of a constant (`&str` -> `&'static str`)
+                    it0 = cfound[0]
+                    hdr = src[it0.start:it0.end]
+                    mm0 = re.match(r"(?s)(.*?:\s*)(.*?)(\s*=)", hdr)
+                    rep0 = None
+                    if mm0 and "&" in mm0.group(2) and "'" not in mm0.group(2):
+                        rep0 = [(mm0.group(2), re.sub(r"&\s*(?!')", "&'static ", mm0.group(2)))]
+                        self.count("const-elided-lifetime")
+                    self.emit_plain_item(rel, src, m, it0, replace=rep0)
                     self.emit("\n", "unit")
                 continue
             found = [f for f in rs.find_items(src, m, (0, len(src)), "fn " + extra) if not self._in_cfg_test(src, m, f)]
